@@ -14,12 +14,14 @@ import (
 	"io"
 	"os"
 	"sort"
+	"sync"
 	"testing"
 	"testing/synctest"
 	"time"
 
 	"github.com/tsuna/gohbase/hrpc"
 	"github.com/tsuna/gohbase/internal/verifsim"
+	"github.com/tsuna/gohbase/region"
 )
 
 func TestVerifC08Client(t *testing.T) {
@@ -193,4 +195,57 @@ func TestVerifC08Client(t *testing.T) {
 			})
 		}
 	}
+	// ---- the cache under concurrent users (run under the race detector): establishers put newer regions over older ones,
+	// others delete regions of a dropped table, requests look keys up - all at once, as they do when a table is dropped or a
+	// server restarts. Afterwards the cache holds no two intersecting regions; an unsynchronised access shows as a race.
+	func() {
+		c := newClient("zk.invalid:2181", Logger(discardLogger))
+		defer c.Close()
+		mk := func(table string, slot, id int) hrpc.RegionInfo {
+			start, stop := []byte{byte('a' + slot)}, []byte{byte('a' + slot + 1)}
+			name := []byte(fmt.Sprintf("%s,%s,%d", table, start, id))
+			return region.NewInfo(uint64(id), nil, []byte(table), name, start, stop)
+		}
+		var wg sync.WaitGroup
+		for g := 0; g < 8; g++ {
+			wg.Add(1)
+			go func() {
+				defer wg.Done()
+				for i := 0; i < 400; i++ {
+					slot := (g*7 + i) % 20
+					switch (g + i) % 4 {
+					case 0, 1:
+						c.regions.put(mk("t", slot, 1000+i))
+					case 2:
+						c.regions.del(mk("t", slot, 1000+i-1))
+						c.regions.del(mk("dropped", slot, 1))
+					case 3:
+						c.regions.get(createRegionSearchKey([]byte("t"), []byte{byte('a' + slot), 'x'}))
+					}
+					if i%5 == 0 {
+						c.regions.put(mk("dropped", slot, 1))
+					}
+				}
+			}()
+		}
+		wg.Wait()
+		var cached []hrpc.RegionInfo
+		enum, err := c.regions.regions.SeekFirst()
+		for err == nil {
+			var r hrpc.RegionInfo
+			_, r, err = enum.Next()
+			if err == nil {
+				cached = append(cached, r)
+			}
+		}
+		rep.Scenarios++
+		rep.Distinct++
+		for i, a := range cached {
+			for _, b := range cached[i+1:] {
+				if bytes.Equal(a.Table(), b.Table()) && bytes.Compare(a.StartKey(), b.StopKey()) < 0 && bytes.Compare(b.StartKey(), a.StopKey()) < 0 {
+					rep.bad("cached-regions-overlap", "concurrent users: the cache holds %q and %q which intersect", a.Name(), b.Name())
+				}
+			}
+		}
+	}()
 }
